@@ -135,7 +135,10 @@ fn judge_tag(ctx: &mut Ctx, body: &str, ds: &str, de: &str, name: &str, want: &[
 
 // ---- opaque-value metamorphic check through clean
 
-const OPAQUE: [&str; 15] = [
+const OPAQUE: [&str; 18] = [
+    "false",
+    "no",
+    "0",
     "plain note",
     "skip",
     " skip ",
